@@ -270,6 +270,7 @@ pub fn run(run: &mut Run) {
         plan.walk = Some((120, 40, 2, 7, bd(0, 0)));
         plan.raws.push((Box::new(Castle { extra: 1, ek_rank2: false }), bd(0, 0)));
         plan.raws.push((Box::new(Disambiguation), bd(0, 0)));
+        plan.raws.push((Box::new(Caged { inner: Box::new(TwoLines { enemy_kings: vec![35] }), variants: 3, mover: false }), bd(0, 0)));
     } else {
         plan.start = Some(bd(3, 1));
         plan.mid = Some(bd(3, 1));
@@ -279,6 +280,8 @@ pub fn run(run: &mut Run) {
         plan.walk = Some((960, 60, 1, 7, bd(0, 0)));
         plan.raws.push((Box::new(Castle { extra: 2, ek_rank2: false }), bd(0, 0)));
         plan.raws.push((Box::new(Disambiguation), bd(1, 0)));
+        plan.raws.push((Box::new(Caged { inner: Box::new(TwoLines { enemy_kings: vec![35, 60, 63] }), variants: 3, mover: false }), bd(0, 0)));
+        plan.raws.push((Box::new(Caged { inner: Box::new(CheckPin { kings: vec![15, 55, 27] }), variants: 3, mover: true }), bd(1, 0)));
         plan.raws.push((Box::new(ThreeMen { bk: None }), bd(0, 0)));
         plan.raws.push((Box::new(EpUniverse::reduced()), bd(0, 0)));
         plan.raws.push((Box::new(Checks { n: 2 }), bd(0, 0)));
